@@ -1193,7 +1193,11 @@ class PX:
     def call_closure(self, st, clos, args, depth=1):
         """call a closure value with argument values; -> list of (state, retval)"""
         if clos[0] == 'closure' and clos[1] in self.p.bodies:
-            return self._run(st, clos[1], [clos] + list(args), depth + 1)
+            # Fn / FnMut closure bodies take `&{closure}` / `&mut {closure}`: hand the closure value over behind a by-value reference so that
+            # captured variables (`(*_1).0`) are found
+            lt = self.p.bodies[clos[1]]['mir']['locals']
+            selfarg = ('cref', clos) if len(lt) > 1 and str(lt[1]).lstrip().startswith('&') else clos
+            return self._run(st, clos[1], [selfarg] + list(args), depth + 1)
         if clos[0] == 'fn' and clos[1] in self.p.bodies and not self.p.has_loops(clos[1]):
             return self._run(st, clos[1], list(args), depth + 1)
         if clos[0] == 'fn' and clos[1] not in self.p.bodies:
